@@ -10,6 +10,7 @@ def run(pid, mod, seed):
         print('no mutation twins defined for %s' % pid)
         return 0
     bad = 0
+    known = runner.load_known()
     for name, apply_, undo in muts:
         t = time.time()
         apply_()
@@ -18,6 +19,8 @@ def run(pid, mod, seed):
             for job in mod.jobs('quick'):
                 r = runner.run_job(job, seed=seed)
                 for v in r['violations']:
+                    if runner.match_known(pid, v['key'], known):
+                        continue        # a recorded finding of the unchanged tree is no evidence for the twin
                     ok, why, _ = runner.confirm(job, v)
                     if ok:
                         found = (job.name, v['key'])
